@@ -74,6 +74,10 @@ def random_instance(rng, cls, small=False):
     if cls in ERR and rng.random() < 0.3:
         sc = {e: rng.choice([0, 0.5, 1, 0.25]) for e in rng.sample(elems, rng.randint(1, max(1, len(elems) // 2)))}
         kw["error_scaling"] = [[gen.jl(e) if isinstance(e, tuple) else e, f] for e, f in sc.items()]
+    # keep the instance inside the documented domain: at least one element that is neither ignored nor scaled by 0
+    dead = set(map(str, kw.get("elements_to_ignore", []))) | {str(e) for e, f in kw.get("error_scaling", []) if f == 0}
+    if all(str(gen.jl(e) if isinstance(e, tuple) else e) in dead for e in elems):
+        kw.pop("elements_to_ignore", None); kw.pop("error_scaling", None); meta["ignore"] = []; drop = []; garbage = {}
     supports_se = cls not in ("kFlowDecomp",) and not (cls in ("MinFlowDecomp", "MinFlowDecompCycles") and base["mode"] == "edge")
     if supports_se and rng.random() < 0.25 and len(base["nodes"]) >= 3:
         inner = I.inner_nodes(base) or base["nodes"]
